@@ -100,9 +100,9 @@ def run(ck):
         if len(ck.samples) < 3 and any(e[0] == 'ECrash' for e in res.trace):
             ck.sample({'program': sc['program'], 'backend': sc['backend'], 'events': [X.ev_show(e) for e in res.trace[:40]]})
     b.flush()
-    if ck.tier == 'thorough':
-        from . import execproc
-        execproc.kill_runs(ck, ck.n(0, 30))
+    # real SIGKILL of real `jug execute` processes on a file store (also INSIDE file_store.dump), cleanup --locks-only, recovery
+    from . import execproc
+    execproc.kill_runs(ck, ck.n(4, 30))
 
 
 def replay(obj):
